@@ -432,7 +432,7 @@ def run_case(E, case, prop, with_count=False):
         raise
     except Exception as e:      # noqa: BLE001 - the code under test raised on valid input: candidate "fails instead of returning"
         from ..harness import solve_exists
-        res_, m = solve_exists(inp.pre, True)
+        res_, m = solve_exists(list(inp.pre) + list(getattr(e, "gb_pc", [])), True)
         model = inp.eval(m) if m is not None else {}
         return {"verdict": "sat", "solver_s": 0.0, "symex_s": time.time() - t0, "n_queries": 1, "obligations": 0,
                 "failed_obligations": [], "witnesses": {}, "encoded": sorted(E.encoded),
